@@ -244,6 +244,9 @@ func SeedNames(s *sim.Sim) { utilrand.Seed(int64(s.Tape.Raw())) }
 func HookLog(s *sim.Sim, st *simapi.Store) {
 	st.StepFn = func() int { return s.Step }
 	st.OnLog = append(st.OnLog, func(e *simapi.LogEntry) {
+		if e.Read {
+			return
+		}
 		s.Logf("  api %s [%s]", e.Describe(), e.TaskLabel)
 	})
 }
